@@ -86,6 +86,30 @@ def main():
                         df = objs[st["mgr"]].inference(q, **st.get("kw", {}))
                     finally:
                         _inf.Inference._multi_inference_worker = _orig
+                elif st.get("giveup_at") is not None:
+                    # fault injection: the k-th Optimize.check() issued under a solver timeout
+                    # gives up (answers unknown without solving), as z3 does when the budget expires
+                    import z3 as _z3
+                    _ocheck, _oset = _z3.Optimize.check, _z3.Optimize.set
+                    _state = {"n": 0, "timed": set()}
+
+                    def _set(self, *a, **k):
+                        if "timeout" in k or (a and a[0] == "timeout"):
+                            _state["timed"].add(id(self))
+                        return _oset(self, *a, **k)
+
+                    def _check(self, *a):
+                        if id(self) in _state["timed"]:
+                            k = _state["n"]
+                            _state["n"] += 1
+                            if k == st["giveup_at"]:
+                                return _z3.unknown
+                        return _ocheck(self, *a)
+                    _z3.Optimize.check, _z3.Optimize.set = _check, _set
+                    try:
+                        df = objs[st["mgr"]].inference(q, **st.get("kw", {}))
+                    finally:
+                        _z3.Optimize.check, _z3.Optimize.set = _ocheck, _oset
                 else:
                     df = objs[st["mgr"]].inference(q, **st.get("kw", {}))
                 res = [[_j(r["index"]), bool(r["result"]), bool(r["inference_timed_out"]),
